@@ -2,6 +2,7 @@ import VsbModel.Props.C11
 import VsbModel.Props.C02
 import VsbModel.Lemmas.RestoreSingle
 import VsbModel.Lemmas.PathRoundTrip
+import VsbModel.Lemmas.PlanFacts
 set_option linter.unusedSimpArgs false
 set_option linter.unusedSectionVars false
 
@@ -12,9 +13,13 @@ Full statement (`restore_exact`): for every storage reachable by a history of ru
 whole-group deletions, and every retained backup `b` of it, `restore … = .done fs true` and `fs` is
 exactly the tree the walk read (paths, bytes, kinds, link targets, mode, owner, mtime seconds).
 
-What is proved here is the part of it that does not need the execution-level liveness argument
-(that no creation fails on a vsb-produced archive): see `restore_exact_partial`.  The remaining part
-is decided on every run by the correspondence check of C01 against an independent snapshot oracle.
+`restore_exact` below proves it for every backup of every group given by its logical description (the
+tree each run read, and which file contents each backup stores itself): whatever the group looks like
+before or after the target, if the target's deduplicated contents are stored in the target or in an
+earlier backup of its group — C02's invariant `resolvable_history`, kept by every history of runs,
+rotations and whole-group deletions — then `vsb restore` exits 0 and the restored tree is, node for
+node, the tree the run read.  `restore_exact_partial` and `restore_exact_selfcontained` are the earlier,
+weaker forms (kept: the correspondence run evaluates their hypotheses too).
 -/
 namespace Vsb.Restore
 variable {H β : Type} [DecidableEq H]
@@ -128,5 +133,68 @@ theorem wf_paths_of_normal (e : Entry β) (fp : FPath) (h : NormalComps fp) (hp 
 /-- Non-vacuity: a small archive (ancestor directories, a file, an empty file, a symlink) passes the check. -/
 example : wfCheck ([.dir "var" {}, .dir "var/x" { mode := 493 }, .file "var/x/f" { mtime := -5 } [1, 2, 3],
     .file "var/x/empty" {} [], .symlink "var/l" {} "../target"] : List (Entry Nat)) = true := by decide
+
+
+/-! ### The general case: deduplicated content, fan-outs, earlier backups of the group -/
+
+/-- **restore_exact.**  Let a group be given by its logical description `lg` (oldest first): for each backup the
+entries the walk read (`es`, files with their full content) and the set of files whose bytes that backup stores
+itself (`stored`); `render` is what `vsb backup` writes for it — the archive with data only for stored files, and
+the manifest with `unique` for stored non-empty files and `extern` for the rest.  Let the target `lt = lg[t]` and
+every earlier backup be well formed, and let every non-empty file of the target that is not stored in it have the
+content of a file stored in the target or in an earlier backup of the group (`ResolvableL`: C02).  SHA-512 is
+taken injective on the contents involved.  Then `vsb restore` of the target exits 0 (`.done _ true`) and the
+restored tree equals `fsOf lt.es` as a map from paths to nodes: every entry with its kind, bytes, link target,
+mode, owner and mtime, and nothing else.  Later backups of the group (`lg` beyond `t`) are arbitrary. -/
+theorem restore_exact (hashOf : List β → H) (hinj : ∀ x y, hashOf x = hashOf y → x = y)
+    (lg : List (LBackup β)) (t : Nat) (lt : LBackup β) (hlt : lg[t]? = some lt)
+    (hwf : ∀ (j : Nat) (lb : LBackup β), j ≤ t → lg[j]? = some lb → WFArchive lb.es)
+    (hres : ResolvableL lg t lt) :
+    ∃ fs, restore hashOf (lg.map (render hashOf)) t = .done fs true ∧ ∀ q, fsGet fs q = fsGet (fsOf lt.es) q := by
+  obtain ⟨p, hplan, pf⟩ := plan_facts hashOf hinj lg t lt hlt hwf hres
+  obtain ⟨st, hrun, fs, hmeta, hflag, hview⟩ := exec_ok hashOf lg t lt hlt p pf
+  refine ⟨fs, ?_, hview⟩
+  unfold restore
+  simp only [hplan, hrun, hmeta, hflag]
+
+/-- Each file of the target comes back with its bytes and metadata, wherever its bytes were stored. -/
+theorem restore_exact_file (hashOf : List β → H) (hinj : ∀ x y, hashOf x = hashOf y → x = y)
+    (lg : List (LBackup β)) (t : Nat) (lt : LBackup β) (hlt : lg[t]? = some lt)
+    (hwf : ∀ (j : Nat) (lb : LBackup β), j ≤ t → lg[j]? = some lb → WFArchive lb.es)
+    (hres : ResolvableL lg t lt) (p : String) (m : Meta) (d : List β) (he : Entry.file p m d ∈ lt.es) :
+    ∃ fs, restore hashOf (lg.map (render hashOf)) t = .done fs true ∧
+      fsGet fs (fpOf (Entry.file p m d : Entry β)) = some (.file d (some m)) := by
+  obtain ⟨fs, h1, h2⟩ := restore_exact hashOf hinj lg t lt hlt hwf hres
+  refine ⟨fs, h1, ?_⟩
+  rw [h2]
+  exact fsGet_map_mem lt.es nodeOf _ he (hwf t lt (Nat.le_refl _) hlt).nodup
+
+/-- Non-vacuity: a group of two backups; the target's `b` is stored in the earlier backup, its `c` duplicates its own
+`a`, `e` is empty; all hypotheses of `restore_exact` hold. -/
+example :
+    let b0 : LBackup Nat := ⟨"b0", [.dir "d" {}, .file "d/old" { mtime := 3 } [7, 7]], fun _ => true⟩
+    let b1 : LBackup Nat := ⟨"b1", [.dir "d" { mode := 493 }, .file "d/a" {} [1, 2, 3], .dir "d/s" {}, .file "d/s/b" { mtime := -5 } [7, 7],
+        .file "d/s/c" {} [1, 2, 3], .file "d/e" {} [], .symlink "d/l" {} "a"], fun p => p == "d/a"⟩
+    (∀ (j : Nat) (lb : LBackup Nat), j ≤ 1 → [b0, b1][j]? = some lb → WFArchive lb.es) ∧ ResolvableL [b0, b1] 1 b1 := by
+  intro b0 b1
+  constructor
+  · intro j lb hj hlb
+    have h0 : wfCheck b0.es = true := by decide
+    have h1 : wfCheck b1.es = true := by decide
+    match j, hj, hlb with
+    | 0, _, hlb => simp only [List.getElem?_cons_zero, Option.some.injEq] at hlb; subst hlb; exact wfCheck_sound _ h0
+    | 1, _, hlb => simp only [List.getElem?_cons_succ, List.getElem?_cons_zero, Option.some.injEq] at hlb; subst hlb; exact wfCheck_sound _ h1
+  · intro b hb hext
+    simp only [b1, List.mem_cons, List.mem_nil_iff, or_false] at hb
+    rcases hb with rfl | rfl | rfl | rfl | rfl | rfl | rfl
+    · cases hext
+    · simp [isExtE, b1] at hext
+    · cases hext
+    · right
+      exact ⟨0, by omega, b0, rfl, "d/old", { mtime := 3 }, [7, 7], by simp [b0], rfl, rfl⟩
+    · left
+      exact ⟨.file "d/a" {} [1, 2, 3], by simp [b1], by simp [isOwnE, b1], rfl⟩
+    · simp [isExtE, b1] at hext
+    · cases hext
 
 end Vsb.Restore
